@@ -91,6 +91,23 @@ func keySwitchCases(fi *FuncInfo, owner string) ([]keyCase, bool, *ast.RangeStmt
 				return true
 			}
 			loop = rs
+			// without a default clause an unknown key falls out of the switch: that is the "default"
+			// when something follows the switch inside the loop (an expanded helper's `return false`)
+			ast.Inspect(rs.Body, func(q ast.Node) bool {
+				var lst []ast.Stmt
+				switch y := q.(type) {
+				case *ast.BlockStmt:
+					lst = y.List
+				case *ast.CaseClause:
+					lst = y.Body
+				}
+				for i, st := range lst {
+					if st == ast.Stmt(sw) && i+1 < len(lst) {
+						hasDefault = true
+					}
+				}
+				return true
+			})
 			for _, c := range sw.Body.List {
 				cc := c.(*ast.CaseClause)
 				if cc.List == nil {
